@@ -34,7 +34,8 @@ EXPECT_PROBES = ["created_on_grid", "created_1us_before_grid", "created_1us_afte
                  "moving_window_variant", "align_to_in_dst_zone", "wall_clock_ticks_between_reads",
                  "resample_restarted_by_driver", "series_added_during_tick", "series_removed_while_running",
                  "slow_source", "source_stopped", "fast_source", "loop_lags_behind",
-                 "sample_stamped_just_before_window_end", "more_than_32_series"]
+                 "sample_stamped_just_before_window_end", "more_than_32_series",
+                 "resample_started_late"]
 
 UNIX_EPOCH = datetime.fromtimestamp(0.0, tz=timezone.utc)
 PERIODS_US = [200_000, 1_000_000, 1_500_000, 3_000_000, 7_300_000]
@@ -216,25 +217,30 @@ def scenario(sim: Sim) -> None:
             # by several periods for sure, and series added then join a loop that resamples windows of the past
             slow = ch.weighted("sink_profile", [3, 2, 1, 1])
 
+            async def latency(slow: int) -> None:
+                if slow == 0 or sim.now_us > pre + run_us:
+                    return
+                if slow == 3:
+                    if sim.now_us < pre + run_us // 2:
+                        sim.probe("loop_lags_behind")
+                        sim.fault("slow_sink")
+                        await asyncio.sleep(ch.int_between("sink_lag_us", period_us, 3 * period_us) / 1e6)
+                    return
+                k = ch.weighted("sink_latency", [5, 2, 2] if slow == 1 else [2, 2, 4])
+                if k == 1:
+                    await asyncio.sleep(ch.int_between("sink_eps_us", 0, 2000) / 1e6)
+                elif k == 2:
+                    sim.probe("slow_sink")
+                    sim.fault("slow_sink")
+                    await asyncio.sleep(ch.int_between("sink_slow_us", period_us // 4, period_us * 7 // 2) / 1e6)
+
             async def sink(sample: Any, name: str = name, slow: int = slow) -> None:
+                # a slow consumer (think: a bounded queue that is full): the sample counts as delivered when the sink
+                # call returns - a sink call that is abandoned half-way has not delivered it
                 rec.active_sinks += 1
                 try:
+                    await latency(slow)
                     rec.record(name, sample.timestamp)
-                    if slow == 0 or sim.now_us > pre + run_us:
-                        return
-                    if slow == 3:
-                        if sim.now_us < pre + run_us // 2:
-                            sim.probe("loop_lags_behind")
-                            sim.fault("slow_sink")
-                            await asyncio.sleep(ch.int_between("sink_lag_us", period_us, 3 * period_us) / 1e6)
-                        return
-                    k = ch.weighted("sink_latency", [5, 2, 2] if slow == 1 else [2, 2, 4])
-                    if k == 1:
-                        await asyncio.sleep(ch.int_between("sink_eps_us", 0, 2000) / 1e6)
-                    elif k == 2:
-                        sim.probe("slow_sink")
-                        sim.fault("slow_sink")
-                        await asyncio.sleep(ch.int_between("sink_slow_us", period_us // 4, period_us * 7 // 2) / 1e6)
                 finally:
                     rec.active_sinks -= 1
 
@@ -267,6 +273,12 @@ def scenario(sim: Sim) -> None:
                     continue
                 return
 
+        # resample() need not be awaited right after construction (the actor and MovingWindow construct the Resampler
+        # in __init__ and start later): the timeline is anchored at creation all the same, late windows come in a burst
+        start_late = ch.choice("resample_started_after_periods", [0, 0, 0, 0.75, 2.5, 5.25])
+        if start_late:
+            sim.probe("resample_started_late")
+            await _until(sim, sim.now_us + int(start_late * period_us))
         task = sim.spawn(driver() if driven else rs.resample())
         nadd = ch.weighted("n_added", [3, 2, 1]) + (1 if driven else 0)
         pending_adds = sorted(pre + ch.int_between("add_at", 0, run_us) for _ in range(nadd))
